@@ -97,6 +97,13 @@ func TestDumpRegress(t *testing.T) {
 	write("C07", "fixed-mov-cr-size", mkShape(32, "MOV", []string{"r32", "creg"}, 6), "two-byte opcode counted as one")
 	write("C07", "known-F04-div-cx", mkShape(16, "DIV", []string{"r16"}, 1), "witness of open finding F04")
 	write("C07", "known-F05-mov-mem-imm", mkShape(16, "MOV", []string{"mem", "immneg"}, 3), "witness of open finding F05")
+	// ---- C13
+	write("C13", "fixed-d4e5041-int-200", CrashCase{Src: "\tINT 200\n", Kind: "mutant"}, "handleINT panicked on vectors above 127")
+	write("C13", "fixed-d4e5041-int-ax", CrashCase{Src: "\tINT AX\n", Kind: "mutant"}, "handleINT panicked on a non-numeric operand")
+	write("C13", "fixed-b1a0463-equ-self", CrashCase{Src: "X EQU X\n\tDB X\n", Kind: "mutant"}, "self-referential EQU overflowed the stack")
+	write("C13", "fixed-b1a0463-equ-cycle", CrashCase{Src: "A EQU B+1\nB EQU A*2\n\tDD B\n", Kind: "mutant"}, "EQU cycle")
+	write("C13", "boundary-template", CrashCase{Src: "\tJMP {{.x}}\n\tMOV AX,{{.\n", Kind: "mutant"}, "template metacharacters in operands")
+	write("C13", "boundary-bignum", CrashCase{Src: "\tDD 99999999999999999999\n\tDB 0xffffffffffffffffff\n", Kind: "mutant"}, "numbers beyond 64 bits")
 	// ---- C04
 	write("C04", "fixed-6349371-bwd-125", BranchCase{Mode: 16, Org: -1, Mn: "JMP", Kind: "bwd", Filler: 120}, "rel8 fit tested on the wrong quantity (wrap)")
 	write("C04", "fixed-6349371-bwd-wrap", BranchCase{Mode: 16, Org: -1, Mn: "JNZ", Kind: "bwd", Filler: 121, Trailing: true}, "rel8 wrap")
